@@ -341,7 +341,7 @@ fn gen_dec(rng: &mut Rng, allow_bad: bool) -> D {
 fn fd(d: D) -> String {
     format!("(d {} {})", d.0, d.1)
 }
-fn gen_lg(rng: &mut Rng, layers: &[&str], bad: bool) -> String {
+fn gen_lg(rng: &mut Rng, layers: &[&str], bad: bool, nowidth: bool) -> String {
     let layer = rng.pick(layers);
     let n = 1 + rng.below(4);
     let mut geoms = vec![];
@@ -357,7 +357,8 @@ fn gen_lg(rng: &mut Rng, layers: &[&str], bad: bool) -> String {
             _ => "(iterate)".to_string(),
         });
     }
-    let width = if has_path && !(bad && rng.chance(1, 6)) || rng.chance(1, 4) {
+    // `nowidth`: the ONLY fault of the library is a PATH in a LAYER block without WIDTH, somewhere after blocks that have one
+    let width = if nowidth && has_path && rng.chance(1, 3) { "#f".into() } else if has_path && !(bad && rng.chance(1, 6)) || rng.chance(1, 4) {
         let w = gen_dec(rng, false);
         fd((w.0.abs() * if bad && rng.chance(1, 8) { -1 } else { 1 }, w.1))
     } else {
@@ -375,6 +376,7 @@ pub fn gen(thorough: bool, rng: &mut Rng, out: &mut Vec<String>) {
     let layers = ["met1", "met2", "via1", "poly", "li1", "M3é"];
     for i in 0..(if thorough { 100000 } else { 10000 }) {
         let bad = i % 5 == 0;
+        let nowidth = i % 7 == 3 && !bad;
         let nm = 1 + rng.below(3);
         let mut macs = vec![];
         for k in 0..nm {
@@ -383,11 +385,11 @@ pub fn gen(thorough: bool, rng: &mut Rng, out: &mut Vec<String>) {
             let pins: Vec<String> = (0..np)
                 .map(|j| {
                     let nports = 1 + rng.below(2);
-                    let ports: Vec<String> = (0..nports).map(|_| format!("(port {})", (0..1 + rng.below(2)).map(|_| gen_lg(rng, &layers, bad)).collect::<Vec<_>>().join(" "))).collect();
+                    let ports: Vec<String> = (0..nports).map(|_| format!("(port {})", (0..1 + rng.below(2)).map(|_| gen_lg(rng, &layers, bad, nowidth)).collect::<Vec<_>>().join(" "))).collect();
                     format!("(pin {} {})", of_bytes(format!("p{}", j).as_bytes()), ports.join(" "))
                 })
                 .collect();
-            let obs: Vec<String> = (0..rng.below(3)).map(|_| gen_lg(rng, &layers, bad)).collect();
+            let obs: Vec<String> = (0..rng.below(3)).map(|_| gen_lg(rng, &layers, bad, nowidth)).collect();
             macs.push(format!("(macro {} {} (pins {}) (obs {}))", of_bytes(format!("mac{}", k).as_bytes()), size, pins.join(" "), obs.join(" ")).replace(" )", ")"));
         }
         let ncs = match rng.below(12) {
